@@ -75,6 +75,8 @@ class Ctx:
         self.executions += 1
         r = self._runner(config)
         t = timeout or self.timeout
+        if config.endswith("@memcheck"):
+            t *= 20
         h = r.run(scenario, t)
         if "crash" in h or "hang" in h:
             # re-run alone in a fresh process before it is believed
@@ -109,6 +111,8 @@ class HarnessError(Exception):
 def process_outcome(h):
     """Process-level violation class of a history, or None."""
     if "crash" in h:
+        if h["crash"].startswith("memcheck:"):
+            return ("invalid-memory-access", h["crash"])
         return ("crash", h["crash"])
     if "hang" in h:
         return ("hang", "scenario did not finish within the watchdog limit")
